@@ -15,6 +15,8 @@ pub struct Workload {
     pub sched: Option<Sched>,
     /// --no-messages: diagnostics are suppressed, the exit status is not.
     pub no_messages: bool,
+    /// --stats (only combined with -q here): no early quit, statistics on stdout.
+    pub stats: bool,
 }
 
 const MODES: [&str; 7] = ["standard", "count", "files-with-matches", "quiet", "files", "json", "context"];
@@ -29,7 +31,8 @@ pub fn gen_workload(sub: u64) -> Workload {
     let threads = if rng.chance(1, 2) { 1 } else { 2 + rng.below(3) };
     let sched = if threads > 1 { Some(gen_sched(&mut rng)) } else { None };
     let no_messages = rng.chance(1, 4);
-    Workload { corpus, mode, threads, sched, no_messages }
+    let stats = mode == "quiet" && rng.chance(1, 2);
+    Workload { corpus, mode, threads, sched, no_messages, stats }
 }
 
 fn base_args(w: &Workload) -> Vec<String> {
@@ -52,6 +55,9 @@ fn base_args(w: &Workload) -> Vec<String> {
         "context" => a.extend(["-n".into(), "--no-heading".into(), "-C1".into()]),
         _ => {}
     }
+    if w.stats {
+        a.push("--stats".into());
+    }
     if w.mode != "files" {
         a.push("foo".into());
     }
@@ -69,11 +75,7 @@ fn file_matches(c: &[u8]) -> bool {
 /// comes first.
 fn expected_status(w: &Workload, faulted_open: &BTreeSet<String>, faulted_dirs: &BTreeSet<String>, _dangling: bool) -> Option<i32> {
     let listed = w.mode == "files";
-    if w.mode == "quiet" {
-        // -q stops at the first match: which faults are met depends on the
-        // traversal order; only the relation "a match exists => never 1" is checked
-        return None;
-    }
+    let quiet = w.mode == "quiet";
     let under_faulted_dir = |p: &str| faulted_dirs.iter().any(|d| p.starts_with(&format!("{d}/")));
     let mut matched = false;
     let mut errored = !faulted_dirs.is_empty();
@@ -89,7 +91,9 @@ fn expected_status(w: &Workload, faulted_open: &BTreeSet<String>, faulted_dirs: 
             matched = true;
         }
     }
-    Some(if matched && !errored {
+    // -q: the run goes on past errors until a match is found, and a match wins
+    // ("or when --quiet found a match"); if nothing matches every fault is met.
+    Some(if matched && (quiet || !errored) {
         0
     } else if errored {
         2
@@ -145,7 +149,7 @@ pub fn run_workload(sub: u64, only_leg: Option<&str>, acc: &mut Acc, ctx: &Ctx, 
         if reference.timed_out || reference.code != exp0 || !reference.stderr.is_empty() {
             acc.violation("C15", "fault-free-status", format!("no fault injected: exit {} (expected {exp0}), stderr {:?}", reference.code, show(&reference.stderr)), sub, replay_body(sub, &w, "fault-free", &ref_spec, None, &reference, json!(null)));
         }
-        if w.mode == "quiet" && !reference.stdout.is_empty() {
+        if w.mode == "quiet" && !w.stats && !reference.stdout.is_empty() {
             acc.violation("C15", "quiet-printed", "-q printed to stdout".into(), sub, replay_body(sub, &w, "fault-free", &ref_spec, None, &reference, json!(null)));
         }
     }
@@ -344,7 +348,8 @@ pub fn run_workload(sub: u64, only_leg: Option<&str>, acc: &mut Acc, ctx: &Ctx, 
         // (k is chosen on the time-masked output so that the choice does not
         // depend on how many digits an elapsed time happens to have)
         let masked = mask_times(&reference.stdout);
-        let n = if w.mode == "json" { masked.len().saturating_sub(64).max(1) } else { reference.stdout.len() };
+        let timed = w.mode == "json" || w.stats; // output embeds elapsed times of varying width
+        let n = if timed { masked.len().saturating_sub(64).max(1) } else { reference.stdout.len() };
         let mut ks: BTreeSet<usize> = BTreeSet::new();
         if n <= if thorough { 4096 } else { 40 } {
             ks.extend(0..n);
@@ -370,7 +375,7 @@ pub fn run_workload(sub: u64, only_leg: Option<&str>, acc: &mut Acc, ctx: &Ctx, 
             let spec = mk(vec![format!("stdout_budget={k}")], &[]);
             let got = ctx.run(&cwd, &spec, 30);
             acc.evals += 1;
-            digest = digest_out_opt(digest, &got, w.mode != "json");
+            digest = digest_out_opt(digest, &got, !timed);
             acc.faults.add("stdout-EPIPE-after-k-bytes", got.fired("epipe").min(1));
             acc.faults.add("stdout-short-write", got.fired("short_write"));
             if got.fired("epipe") == 0 {
@@ -382,7 +387,7 @@ pub fn run_workload(sub: u64, only_leg: Option<&str>, acc: &mut Acc, ctx: &Ctx, 
             }
             let files_par = w.mode == "files" && w.threads > 1;
             let detail = json!({"k": k, "opens_after_epipe": got.fired("opens_after_epipe")});
-            let prefix_ok = if files_par || w.mode == "json" {
+            let prefix_ok = if files_par || timed {
                 // (JSON output embeds elapsed times of varying width: only the length is compared)
                 // the printing thread is not scheduled: only timing-independent claims
                 got.stdout.len() == k
